@@ -32,8 +32,10 @@ Section S.
            | |- context [if ?c then _ else _] => let E := fresh "E" in destruct c eqn:E
            | H' : context [if ?c then _ else _] |- _ => let E := fresh "E" in destruct c eqn:E
            end.
-  (** equal up to [field] below the square roots *)
-  Ltac congr_field := first [ field_hyps | (f_equal; congr_field) ].
+  (** equal up to [field] - or, where a denominator is not known to be non-zero, up to [ring] with every quotient read
+      as a product with the inverse - below the square roots *)
+  Ltac fring := rewrite ?(Fdiv_def (@Fth K)); ring.
+  Ltac congr_field := first [ field_hyps | fring | (progress f_equal; congr_field) ].
 
   Notation c := (L C_c). Notation tpi := (L C_two_pi). Notation frev := (L O_getRevolutionFrequency).
   Notation E0 := (L O_getBeamEnergy). Notation sE := (L O_getEnergySpread). Notation H := (L O_getHarmonicNumber).
